@@ -490,3 +490,49 @@ Theorem C07_generated_fresh_job_records : forall t key,
 Proof. intros t key. exact (conj (GenInitEq.gen_once_init_is_new_job t key)
   (conj (GenInitEq.gen_at_init_is_new_job key) GenInitEq.gen_handler_init_empty)). Qed.
 Print Assumptions C07_generated_fresh_job_records.
+(* ---- AsyncScheduler.remove_all by translation: coq/gen/GenRemoveAll.v is regenerated from
+   src/eascheduler/schedulers/async_scheduler.py on every run (tools/gen_removeall.py); the loop calls the generated
+   job_finish of GenJobs.v with the generated scheduler; re-checked in coq/theories/GenRemoveAllEq.v. ---- *)
+From EAS Require SchedRemoveAll GenRemoveAllEq.
+Theorem C07_generated_remove_all_recognised :
+  EASGen.GenRemoveAll.gen_removeall_status_v = EASGen.GenRemoveAll.GenRemoveAllOk.
+Proof. exact GenRemoveAllEq.gen_removeall_recognised. Qed.
+Print Assumptions C07_generated_remove_all_recognised.
+(* on every state with Inv: the generated method returns normally with the state of the model's derived history
+   map OCancel (rev (queue s)), up to the operation counter (one call here, one operation per job there) *)
+Theorem C07_generated_remove_all_is_model : forall E f hs s,
+  Inv s ->
+  let '(s', rs) := SchedRemoveAll.remove_all E (S (S f)) hs s in
+  exists g, GenRemoveAllEq.gen_remove_all E (S (S f)) s = Some (g, GenRtJobs.JRet) /\
+            SchedEqst.eqst (set_opi (opi s') g) s' /\ opi g = opi s /\ Forall (fun r => r = Done) rs.
+Proof. exact GenRemoveAllEq.gen_remove_all_is_model. Qed.
+Print Assumptions C07_generated_remove_all_is_model.
+Theorem C07_generated_remove_all_is_model_fuel : forall E fuel hs s s' rs,
+  Inv s -> (2 <= fuel)%nat -> SchedRemoveAll.remove_all E fuel hs s = (s', rs) ->
+  exists g, GenRemoveAllEq.gen_remove_all E fuel s = Some (g, GenRtJobs.JRet) /\
+            SchedEqst.eqst (set_opi (opi s') g) s' /\ opi g = opi s /\ ~ In NoFuel rs.
+Proof. exact GenRemoveAllEq.gen_remove_all_is_model_fuel. Qed.
+Print Assumptions C07_generated_remove_all_is_model_fuel.
+(* remove_all_spec for the generated code: nothing is executed, the queue is empty, the timer disarmed, exactly the
+   queued jobs are finished *)
+Theorem C07_generated_remove_all_spec : forall E f s,
+  Inv s ->
+  exists g, GenRemoveAllEq.gen_remove_all E (S (S f)) s = Some (g, GenRtJobs.JRet) /\
+    Inv g /\ queue g = [] /\ timer g = None /\
+    (forall j, In j (queue s) ->
+       jstatus (jobs g j) = Finished /\ jnext (jobs g j) = None /\ jlinked (jobs g j) = false) /\
+    (forall j, ~ In j (queue s) -> jobs g j = jobs s j) /\
+    SchedRemoveAll.count_all_exec (log g) = SchedRemoveAll.count_all_exec (log s) /\
+    now g = now s /\ enabled g = enabled s /\ njobs g = njobs s /\
+    store g = store (fst (SchedRemoveAll.remove_all E (S (S f)) true s)) /\ opi g = opi s.
+Proof. exact GenRemoveAllEq.gen_remove_all_spec. Qed.
+Print Assumptions C07_generated_remove_all_spec.
+(* the exception path of the loop, for every state: the first job_finish that raises ends the method with that
+   exception, the rest of the snapshot is not visited *)
+Theorem C07_generated_remove_all_raises : forall E R l1 j l2 s s1 s2 e,
+  rev (queue s) = l1 ++ j :: l2 ->
+  EASGen.GenRemoveAll.g_remove_all_loop E R l1 s = Some (s1, GenRtJobs.JRet) ->
+  EASGen.GenJobs.g_job_finish E R j s1 = Some (s2, GenRtJobs.JExc e) ->
+  EASGen.GenRemoveAll.g_remove_all E R s = Some (s2, GenRtJobs.JExc e).
+Proof. exact GenRemoveAllEq.gen_remove_all_raises. Qed.
+Print Assumptions C07_generated_remove_all_raises.
